@@ -1,7 +1,7 @@
 //! C03 — the verifier's verdict equals the unbatched Bulletproofs verification relations.
 use crate::choices::Choices;
 use crate::curves::{Curve, CurveTag};
-use crate::drive::{bp_gens, pc_gens, run_prover, run_verifier, ProveOpts, VerifyOpts};
+use crate::drive::{bp_gens, prog_pc, run_prover, run_verifier, ProveOpts, VerifyOpts};
 use crate::mirror::ProofMirror;
 use crate::program::{gen_program, Cap, GenCfg, Op, Program, Sc, Var, CLABELS};
 use crate::props::c02::gen_bad;
@@ -67,7 +67,7 @@ pub fn gen_zero_gate(ch: &mut Choices, curve: Curve) -> Program {
         }
         ops.push(Op::Closure(body));
     }
-    Program { curve, tlabel: ch.below(3) as u8, pre: vec![], ops, owned: ch.chance(64), cap_p: Cap::gen(ch), cap_v: Cap::gen(ch), party_cap: 1, seed: ch.u16() as u64 }
+    Program { curve, tlabel: ch.below(3) as u8, pre: vec![], ops, owned: ch.chance(64), cap_p: Cap::gen(ch), cap_v: Cap::gen(ch), party_cap: 1, seed: ch.u16() as u64, pc: 0 }
 }
 
 fn edit_fields<G: CurveTag>(ch: &mut Choices, m: &mut ProofMirror<G>) -> String {
@@ -158,11 +158,15 @@ fn edit_shape<G: CurveTag>(ch: &mut Choices, m: &mut ProofMirror<G>) -> String {
     }
 }
 
-fn case<G: CurveTag>(bytes: &[u8], col: &mut Collector, large: bool) -> Result<(), Failure> {
+fn case<G: CurveTag>(bytes: &[u8], col: &mut Collector, large: bool, wide: bool) -> Result<(), Failure> {
     let cut = bytes.len().min(16);
     let mut chi = Choices::new(&bytes[..cut]);
     let class = chi.weighted(&[12, 14, 26, 10, 12, 18, 8]);
-    let cfg = GenCfg { max_ops1: 10, max_closures: 2, max_ops2: 6, max_commits: 3, big_gates: if large { 40 } else { 0 }, max_terms: if large { 10 } else { 4 } };
+    let cfg = if wide {
+        GenCfg { max_ops1: 600, max_closures: 2, max_ops2: 6, max_commits: 200, big_gates: 0, max_terms: 6, wide: true }
+    } else {
+        GenCfg { max_ops1: 10, max_closures: 2, max_ops2: 6, max_commits: 3, big_gates: if large { 40 } else { 0 }, max_terms: if large { 10 } else { 4 }, wide: false }
+    };
     let (prog, mut label): (Program, String) = match class {
         1 => {
             let (p, l) = gen_bad(&bytes[cut..], G::CURVE, &cfg);
@@ -206,7 +210,7 @@ fn case<G: CurveTag>(bytes: &[u8], col: &mut Collector, large: bool) -> Result<(
             let d: Fr<G> = ScalarSpec::gen_nonzero(&mut chi).to_f();
             let dp = rand_point::<G>(chi.u16() as u64);
             let (sel, sel2) = (chi.byte() as usize, chi.u16() as usize);
-            match crate::compensate::compensating_edit::<G>(&mirror, &chs, r, &pc_gens::<G>().B_blinding, sel, sel2, d, dp) {
+            match crate::compensate::compensating_edit::<G>(&mirror, &chs, r, &prog_pc::<G>(&prog).B_blinding, sel, sel2, d, dp) {
                 Some((desc, m2)) => {
                     mirror = m2;
                     label = format!("compensating edit: {}", desc);
@@ -257,7 +261,7 @@ fn case<G: CurveTag>(bytes: &[u8], col: &mut Collector, large: bool) -> Result<(
             label = format!("identity-crafted: draw #{} := 0 -> identity at {:?}", j, crafted_identity);
             // the crafted proof still satisfies (b) and (c) under the prover's own challenges
             if let Some(chp) = extract_challenges::<G>(&p2.log, p2.main_id, p2.challenges.len()) {
-                let pc = pc_gens::<G>();
+                let pc = prog_pc::<G>(&prog);
                 let gens = bp_gens::<G>(256, 1);
                 let gv: Vec<G> = gens.G(shape.padded(), 1).cloned().collect();
                 let hv: Vec<G> = gens.H(shape.padded(), 1).cloned().collect();
@@ -287,7 +291,7 @@ fn case<G: CurveTag>(bytes: &[u8], col: &mut Collector, large: bool) -> Result<(
             eprintln!("  {}", crate::tlog::event_short(e));
         }
     }
-    let pc = pc_gens::<G>();
+    let pc = prog_pc::<G>(&prog);
     let gens = bp_gens::<G>(256, 1);
     let gv: Vec<G> = gens.G(shape.padded(), 1).cloned().collect();
     let hv: Vec<G> = gens.H(shape.padded(), 1).cloned().collect();
@@ -346,6 +350,9 @@ fn case<G: CurveTag>(bytes: &[u8], col: &mut Collector, large: bool) -> Result<(
             }
         }
     }
+    if shape.cons1 + shape.cons2 > 256 {
+        col.class("more-than-256-constraints");
+    }
     col.class(&format!("ref:{}", r.class()));
     col.class(&format!("class:{}", label.split(':').next().unwrap_or("").split(' ').next().unwrap_or("")));
     let nt = matches!(r.class(), "accept" | "reject:a" | "reject:b-only" | "reject:c-only");
@@ -381,7 +388,7 @@ fn own_prover_case<G: CurveTag>(chi: &mut Choices, prog: &Program, col: &mut Col
     };
     let v = run_verifier::<G>(prog, &op.commitments, &real_proof, &VerifyOpts { record: true, ..Default::default() });
     let chv = extract_challenges::<G>(&v.log, v.main_id, v.challenges.len());
-    let pc = pc_gens::<G>();
+    let pc = prog_pc::<G>(prog);
     let gens = bp_gens::<G>(256, 1);
     let gv: Vec<G> = gens.G(shape.padded(), 1).cloned().collect();
     let hv: Vec<G> = gens.H(shape.padded(), 1).cloned().collect();
@@ -418,7 +425,8 @@ fn own_prover_case<G: CurveTag>(chi: &mut Choices, prog: &Program, col: &mut Col
 fn dispatch(sub: &str, bytes: &[u8], col: &mut Collector) -> Result<(), Failure> {
     let curve = Curve::from_name(sub.split('/').nth(1).unwrap_or("")).unwrap_or(Curve::Secq);
     let large = sub.ends_with("/large");
-    with_curve!(curve, G => case::<G>(bytes, col, large))
+    let wide = sub.ends_with("/wide");
+    with_curve!(curve, G => case::<G>(bytes, col, large, wide))
 }
 
 pub fn replay(sub: &str, bytes: &[u8], col: &mut Collector) -> Result<(), Failure> {
@@ -443,6 +451,9 @@ pub fn run(tier: &str, seed: u64) -> i32 {
         let subl = format!("c03/{}/large", c.name());
         let nl = super::scale(tier, 24, 400);
         rep.outcome.merge(search(&subl, seed, nl, 900, &|b, col| dispatch(&subl, b, col)));
+        let subw = format!("c03/{}/wide", c.name());
+        let nw = super::scale(tier, 24, 200);
+        rep.outcome.merge(search(&subw, seed, nw, 6000, &|b, col| dispatch(&subw, b, col)));
     }
     for (c, f) in [("ref:accept", 0.05), ("ref:reject:a", 0.03), ("ref:reject:b-only", 0.03), ("ref:reject:c-only", 0.03), ("identity-crafted: (b) and (c) hold, (a) fails", 0.01), ("own-prover:None", 0.01), ("own-prover:TShift", 0.02), ("own-prover:LVec", 0.005), ("own-prover:EBlind", 0.005)] {
         rep.required_classes.push((c.to_string(), f));
